@@ -167,6 +167,8 @@ impl MCOptimiser {
         rng: &mut R,
     ) -> Option<f64> {
         let threshold: f64 = rng.gen();
+        #[cfg(packing_verif)]
+        crate::verif::emit(crate::verif::Event::Draw { u: threshold });
 
         match new {
             // New score is better, keep updated state
@@ -200,6 +202,18 @@ impl MCOptimiser {
 
         let mut step_ratio = 1.;
         let mut convergence_count = 0;
+        #[cfg(packing_verif)]
+        crate::verif::emit(crate::verif::Event::Start {
+            kt_start: self.kt_start,
+            kt_ratio: self.kt_ratio,
+            max_step_size: self.max_step_size,
+            steps: self.steps,
+            inner_steps: self.inner_steps,
+            seed: self.seed,
+            convergence: self.convergence,
+            n_basis: basis.len(),
+            score: score_current,
+        });
 
         for loop_counter in 1..=(self.steps / self.inner_steps) {
             let score_start = score_current;
@@ -209,6 +223,8 @@ impl MCOptimiser {
                 // This is needed later if we need to undo the change
                 let basis_index: usize = basis_distribution.sample(&mut rng);
 
+                #[cfg(packing_verif)]
+                let verif_before = basis.get(basis_index).map(|b| b.get_value());
                 // Make a random modification to the selected basis
                 basis
                     .get_mut(basis_index)
@@ -217,6 +233,13 @@ impl MCOptimiser {
                     .expect("Trying to access basis which doesn't exist")
                     .set_sampled(&mut rng, self.max_step_size * step_ratio);
 
+                #[cfg(packing_verif)]
+                crate::verif::emit(crate::verif::Event::Propose {
+                    index: basis_index,
+                    before: verif_before.unwrap_or(std::f64::NAN),
+                    after: basis[basis_index].get_value(),
+                    step: self.max_step_size * step_ratio,
+                });
                 // Check if modification was good
                 score_current = match self.accept_score(state.score(), score_current, kt, &mut rng)
                 {
@@ -234,6 +257,13 @@ impl MCOptimiser {
                         score_current
                     }
                 };
+                #[cfg(packing_verif)]
+                crate::verif::emit(crate::verif::Event::Decide {
+                    score_current,
+                    loop_rejections,
+                    value: basis[basis_index].get_value(),
+                    kt,
+                });
             }
             rejections += loop_rejections;
             kt *= self.kt_ratio;
@@ -250,6 +280,18 @@ impl MCOptimiser {
                             loop_counter * self.inner_steps,
                             score_current - score_start,
                         );
+                        #[cfg(packing_verif)]
+                        {
+                            crate::verif::emit(crate::verif::Event::EndLoop {
+                                loop_counter,
+                                kt,
+                                step_ratio,
+                                loop_rejections,
+                                convergence_count,
+                                early: true,
+                            });
+                            crate::verif::emit(crate::verif::Event::Return { early: true });
+                        }
                         return state;
                     }
                 } else {
@@ -269,6 +311,15 @@ impl MCOptimiser {
                     step_ratio * self.inner_steps as f64 / (loop_rejections as f64 + 1.),
                 );
             }
+            #[cfg(packing_verif)]
+            crate::verif::emit(crate::verif::Event::EndLoop {
+                loop_counter,
+                kt,
+                step_ratio,
+                loop_rejections,
+                convergence_count,
+                early: false,
+            });
         }
         debug!(
             "Score: {:.4}, Rejected Fraction: {:.2}%",
@@ -280,6 +331,8 @@ impl MCOptimiser {
             state.score().is_some(),
             "Final score is invalid, this shouldn't occur in normal operation"
         );
+        #[cfg(packing_verif)]
+        crate::verif::emit(crate::verif::Event::Return { early: false });
         state
     }
 }
